@@ -67,25 +67,67 @@ def check(stats, m, env, sub="escape", info=None, symbolic=True):
             buckets.setdefault(c, (name, out))
         return out
 
+    def run_at(name, expr):
+        """Evaluates an expression the library returned; inf / nan there is out of scope when the returned expression's
+        own exact intermediates leave the range (it is a different computation from the original's)."""
+        out = lib.call(lambda: expr.at(lib.Point(**env)))
+        stats.count("route-calls")
+        c = classify(out)
+        if c is None:
+            return
+        if c == "range":
+            stats.count("lib-overflow")
+            return
+        if c.startswith("weird:float") and all(v in env for v in M.variables(to_model(expr))):
+            rr, _ = RE.evaluate(to_model(expr), dict(env), lo=DV.LO, hi=DV.HI, const_ulps=2.0)
+            if rr.st in (RE.RANGE, RE.UNDECIDED):
+                stats.count("returned-expression-range-skip")
+                return
+        buckets.setdefault(c, (name, out))
+
     run("at(Point)", lambda: build(m).at(lib.Point(**env)))
     if len(vs) <= 1:
         number = env.get(vs[0], 1.5) if vs else 1.5
         run("at(number)", lambda: build(m).at(number))
     variables = (vs + ["absent"])[:3]
     for var in variables:
+        # the derivative has intermediates of its own (products of local partials, reverse multipliers, the simplified
+        # partial's sub-terms): if THEY leave the range, inf/nan/OverflowError from a derivative route is out of scope
+        d_in_range = True
+        if ctx is not None and r.st == RE.DEFINED:
+            o = DV.oracle(m, env, var, ctx=ctx, r=r, reverse=True)
+            d_in_range = o.st == "ok"
+            if not d_in_range:
+                stats.count("derivative-range-skip")
         for rt in DV.routes_for(m, var):
             if not symbolic and DV.family_of(rt) is not None:
                 continue
-            run(f"{rt}[{var}]", lambda: DV.run_numeric(rt, m, env, var))
+            if not d_in_range:
+                out = lib.call(lambda: DV.run_numeric(rt, m, env, var))
+                c = classify(out)
+                if c is not None and c != "range" and not c.startswith("weird:float"):
+                    buckets.setdefault(c, (f"{rt}[{var}]", out))
+                continue
+            fam = DV.family_of(rt)
+            out = lib.call(lambda: DV.run_numeric(rt, m, env, var))
+            stats.count("route-calls")
+            c = classify(out)
+            if c == "range":
+                stats.count("lib-overflow")
+            elif c is not None:
+                if fam is not None and c.startswith("weird:float") and DV.rounding_excuse(m, var, env, rt):
+                    stats.count("simplified-partial-range-skip")      # the simplified partial's own intermediates leave the range
+                else:
+                    buckets.setdefault(c, (f"{rt}[{var}]", out))
         if symbolic:
             for rt in DV.symbolic_routes_for(m, var):
                 out = run(f"{rt}[{var}]", lambda: DV.run_symbolic(rt, m, var))
                 if out.kind == lib.EXPR:
-                    run(f"{rt}[{var}].at", lambda: out.value.at(lib.Point(**env)))
+                    run_at(f"{rt}[{var}].at", out.value)
     if symbolic:
         out = run("_normalize", lambda: build(m)._normalize())
         if out.kind == lib.EXPR:
-            run("_normalize.at", lambda: out.value.at(lib.Point(**env)))
+            run_at("_normalize.at", out.value)
     if buckets:
         key = sorted(buckets)[0]
         name, out = buckets[key]
